@@ -362,11 +362,10 @@ pub fn get_start_port_if_applicable(range: Option<PortRange>) -> Option<u16> {
     None
 }
 
-/// Increment the port by 1.
+/// Increment the port by 1. Returns `None` if there is no port above the given one.
 pub fn increment_port_option(port: Option<u16>) -> Option<u16> {
     if let Some(port) = port {
-        let incremented_port = port + 1;
-        return Some(incremented_port);
+        return port.checked_add(1);
     }
     None
 }
